@@ -115,6 +115,11 @@ func refResolve(w *world.World, ns, svcName, portRef string) *refBackend {
 					continue
 				}
 				for _, a := range ss.Ready {
+					if pod := w.Get(world.KPod, ns+"/"+a.Pod); a.Pod != "" && pod != nil && pod.Terminating && refDrainSupport(w) {
+						// a pod being deleted whose address is still published: drained, like a not-ready one
+						b.Drained[fmt.Sprintf("%s:%d", a.IP, pp.Port)] = true
+						continue
+					}
 					b.Ready[fmt.Sprintf("%s:%d", a.IP, pp.Port)] = true
 				}
 				for _, a := range ss.NotReady {
@@ -124,6 +129,12 @@ func refResolve(w *world.World, ns, svcName, portRef string) *refBackend {
 		}
 	}
 	return b
+}
+
+// refDrainSupport: the global drain-support option.
+func refDrainSupport(w *world.World) bool {
+	cm := w.Get(world.KConfigMap, world.GlobalCM)
+	return cm != nil && cm.Data["drain-support"] == "true"
 }
 
 type refRule struct {
